@@ -36,6 +36,7 @@ class Function:
         self.qualname = qualname
         self.cls = cls  # defining class (for super())
         self.name = getattr(node, "name", "<lambda>")
+        self.cache = None  # {"name", "extra_args", "ignore_args"} for @cached_method / @cached_property members
 
     def __repr__(self):
         return f"<function {self.module.name}:{self.qualname}>"
@@ -43,6 +44,30 @@ class Function:
     def source_hash(self):
         seg = ast.get_source_segment(self.module.source, self.node) or ""
         return hashlib.sha256(seg.encode()).hexdigest()[:16]
+
+
+def _cache_decorator(st):
+    """parameters of pde.tools.cache.cached_method / cached_property decorating a class member, if any"""
+    for d in st.decorator_list:
+        fn = d.func if isinstance(d, ast.Call) else d
+        nm = ast.unparse(fn).split(".")[-1]
+        if nm not in ("cached_method", "cached_property"):
+            continue
+        info = {"kind": nm, "name": st.name, "extra_args": [], "ignore_args": [], "factory": None}
+        if isinstance(d, ast.Call):
+            for kw in d.keywords:
+                try:
+                    val = ast.literal_eval(kw.value)
+                except Exception:
+                    val = "?"
+                if kw.arg in ("extra_args", "ignore_args"):
+                    info[kw.arg] = [val] if isinstance(val, str) else list(val or [])
+                elif kw.arg in ("name", "factory"):
+                    info[kw.arg] = val if kw.arg == "factory" or val else st.name
+            if d.args:
+                info["factory"] = "?"
+        return info
+    return None
 
 
 class BoundMethod:
@@ -122,6 +147,7 @@ class Class:
                 if isinstance(st, ast.FunctionDef):
                     f = Function(st, None, self.module, f"{self.name}.{st.name}", cls=self)
                     decos = [ast.unparse(d) for d in st.decorator_list]
+                    f.cache = _cache_decorator(st)
                     if any(d.endswith(".setter") for d in decos):
                         p = mem.get(st.name)
                         if isinstance(p, Property):
